@@ -8,14 +8,13 @@ namespace AsyncFix.Model.Codec
 
 /-- value of `checksum_passed` after one field -/
 def ckAfter (ck : Nat) (s : DState) (tag value : Bytes) : Bool :=
-  if tag == tag10 then (match pyInt value with | some v => v == (ck : Int) | none => false)
-  else s.ckPassed
+  if tag == tag10 then (ckParse value == some ck) else s.ckPassed
 
 theorem stepField_ck {tbl : Tbl} {ck : Nat} {s s' : DState} {tag value : Bytes}
     (h : stepField tbl ck s tag value = .ok s') : s'.ckPassed = ckAfter ck s tag value := by
   unfold stepField at h
   generalize hs1 : (if tag == tag10 then
-      { s with ckPassed := (match pyInt value with | some v => v == (ck : Int) | none => false) }
+      { s with ckPassed := (ckParse value == some ck) }
     else if tag == tag35 then { s with mtype := value } else s) = s1 at h
   have hck : s1.ckPassed = ckAfter ck s tag value := by
     subst hs1
@@ -36,7 +35,7 @@ theorem stepField_ck {tbl : Tbl} {ck : Nat} {s s' : DState} {tag value : Bytes}
 theorem fieldLoop_ck {tbl : Tbl} {ck : Nat} : ∀ (fields : List Bytes) (s s' : DState),
     fieldLoop tbl ck s fields = .ok (some s') → s'.ckPassed = true →
     (s.ckPassed = true ∧ ∀ m ∈ fields, ∀ v, splitEq m ≠ some (tag10, v)) ∨
-    (∃ F v G, fields = F ++ (tag10 ++ EQS :: v) :: G ∧ pyInt v = some (ck : Int) ∧
+    (∃ F v G, fields = F ++ (tag10 ++ EQS :: v) :: G ∧ ckParse v = some ck ∧
       ∀ m ∈ G, ∀ v', splitEq m ≠ some (tag10, v')) := by
   intro fields
   induction fields with
@@ -66,12 +65,7 @@ theorem fieldLoop_ck {tbl : Tbl} {ck : Nat} : ∀ (fields : List Bytes) (s s' : 
             · rename_i ht
               have ht' : tag = tag10 := eq_of_beq ht
               right
-              refine ⟨[], value, rest, by rw [hm, ht']; rfl, ?_, h2⟩
-              split at hck
-              · rename_i v hv
-                have : v = (ck : Int) := eq_of_beq hck.symm
-                rw [hv, this]
-              · cases hck
+              exact ⟨[], value, rest, by rw [hm, ht']; rfl, eq_of_beq hck.symm, h2⟩
             · rename_i ht
               left
               refine ⟨hck.symm, ?_⟩
@@ -141,7 +135,7 @@ theorem decodeFields_msg {bs : Bytes} {tbl : Tbl} {rawLen vi w : Nat} {fields : 
 theorem decode_checksum {bs : Bytes} {tbl : Tbl} {raw : Bytes} {m : Msg} {n : Nat} {enc : Bytes}
     (h : decode bs tbl raw = .msg m n enc) :
     ∃ F v, fieldsOf enc = F ++ [tag10 ++ EQS :: v] ∧ F ≠ [] ∧ SOH ∉ v ∧
-      pyInt v = some (((sum (join SOH F) + 1) % 256 : Nat) : Int) ∧
+      ckParse v = some ((sum (join SOH F) + 1) % 256) ∧
       (enc = join SOH F ++ SOH :: (tag10 ++ EQS :: v) ∨
        enc = join SOH F ++ SOH :: (tag10 ++ EQS :: v) ++ [SOH]) := by
   rw [decode_eq] at h
